@@ -155,13 +155,13 @@ PROPS = {
             "obs": None, "special": special_c16, "note": "Partial by nature: the Go scheduler and memory model are not modelled; races and leaks are searched by execution (-race), not proved absent."},
     "C09": {"claim": "Model of scaledbarcode.go (Scale, ScaleWithFill, both scalers, the wrapper's accessors) with the theorem that the result is the integer, centred enlargement or an error; tied by correspondence on exhaustive (width, height) windows of small sources of every family, chains, fills; judged pixel by pixel by the property's own formula.",
             "obs": None, "aux": scale_inner, "exhaustive_note": "every (w, h) in [1, 3*size+3]^2 for the small 1-D sources and small matrix symbols whose window fits the budget"},
-    "C10": {"modules": ["QrA", "PdfA", "DmA", "AztecA", "C05", "C06", "C07", "C08"], "claim": "Acceptance stated per entry point as `accepted iff representable` (alphabet, length, parity, check digit, capacity from the ISO tables); models tied by correspondence on every single byte / boundary rune / boundary length / parameter sweep; no call may panic, hang or return an inconsistent pair. For Aztec and PDF417 capacity the oracle decides only one direction (content that certainly fits must be accepted).",
+    "C10": {"modules": ["QrA", "PdfA", "DmA", "AztecA", "C05", "C06", "C07", "C08"], "claim": 'Acceptance is proved in Lean per entry point as `accepted iff representable` and `never panics` for all eleven families (C05_accepts_iff, C06_accept, C07_*_accepts, C08_*_accept, QrA.encode*_accepts_iff + encodeWithColor_no_panic, DmA.accepted_iff, PdfA.C04_encode_cases + C10_never_panics, AztecA.AztecA_explicit_iff + C10_aztec_*); termination is by construction (structural recursion or fuel proved sufficient where it matters). Tied to /repo by correspondence on every single byte / boundary rune / boundary length / parameter sweep; the oracle states representability from the standards (alphabet, length, parity, check digit, ISO capacity) and flags any panic, hang or inconsistent return. For Aztec and PDF417 capacity the oracle decides one direction only (content that certainly fits must be accepted).',
             "obs": ["ok", "rej"], "exhaustive_note": "every single byte value and 15 boundary runes as one-character content for every entry point; level bytes 0..255; layer requests -40..40"},
     "C11": {"claim": "Proved in Lean for all eleven families and every constructor path (BV/Props/C11): acceptance, bounds, metadata, content, checksum and module pattern do not depend on the colour scheme; the scheme in force is the caller's (plain Encode = ColorScheme16); only the two scheme colours occur; standard sizes. Tied to /repo by correspondence over schemes in Gray, Gray16, RGBA, NRGBA, CMYK, RGBA64 incl. equal and type-mixed colours, and judged per pixel by the oracle.",
             "obs": None, "aux": plain_op},
-    "C12": {"modules": ["QrA", "PdfA", "DmA", "AztecA"], "claim": "Declared and carried error-correction strength: QR level in the format information and ISO block structure, PDF417 level in both indicators and 2^(level+1) valid check words, DataMatrix ECC 200 counts, Aztec check bits vs. requested percentage; read back from the implementation's pixels by the reference decoders.",
+    "C12": {"modules": ["QrA", "PdfA", "DmA", "AztecA"], "claim": "Proved in Lean: the decoded Info of the round-trip theorems carries the requested level / counts — QR: format word names the level and the blocks follow the ISO table (C01_qr, QrA); PDF417: both indicators name the level and 2^(level+1) valid check words (PdfA); DataMatrix: ECC 200 counts of the chosen size (C02, DmA.table_certificates); Aztec: check bits x 100 >= percentage x data bits (AztecA.C12_aztec). The implementation's pictures are read back by the reference decoders and compared with the request.",
             "obs": None},
-    "C13": {"modules": ["QrA", "PdfA", "DmA", "AztecA"], "claim": "Minimality: QR version against the ISO capacity of the densest single mode, DataMatrix size against the ASCII encodation length, PDF417 padding below one row within the limits, Aztec by requesting every physically smaller symbol explicitly.",
+    "C13": {"modules": ["QrA", "PdfA", "DmA", "AztecA"], "claim": 'Proved in Lean: QR first fit over a table proved sorted (QrA.findSmallest_minimal) and Auto = first success of numeric, alphanumeric, byte; DataMatrix first fit (DmA.size_choice); PDF417 rows = ceil, padding < columns, within 2..30 (PdfA.C13_dimensions); Aztec: every physically smaller explicit request is rejected (AztecA.C13_aztec). The oracle recomputes minimal sizes from the ISO capacity tables / by explicit smaller requests on the implementation.',
             "obs": ["w", "h", "auto", "smaller_ok"]},
     "C14": {"modules": ["C05", "C06", "C07"], "claim": "CheckSum() against the check value decoded from the drawn symbol (EAN last digit = GS1 check, Code 128 check character, Code 39 modulo-43 value) and its invariance under 0-3 rounds of Scale.",
             "obs": ["cs"], "aux": base_op},
